@@ -148,6 +148,7 @@ def whileBaseline : List (String × String × String × String) := [
   ("xpath2/xpath2_parser.py", "advance", "self.next_token.symbol == '(:'", "proved: advance3_total (each iteration re-tokenizes after the comment: the end offset of next_match strictly grows; assumes finditer(source, p) yields matches after p)"),
   ("xpath30/_xpath30_functions.py", "nud", "self.parser.next_token.symbol != ')'", "argued: each iteration advances over a parameter; advance consumes or raises at (end)"),
   ("xpath30/_xpath30_functions.py", "nud", "True", "argued: as above, breaks unless next token is ','"),
+  ("xpath30/_xpath30_functions.py", "append_sequence_type", "tk.symbol == '(' and len(tk) == 1", "argued: tk = tk[0] descends one level of the finite token tree built by the parse per iteration (added by fix-c18-6, parenthesised item types)"),
   ("xpath30/_xpath30_functions.py", "evaluate__format_integer", "chr(cp - 1).isdigit()", "argued: cp decreases, at most 9 steps inside a digit block"),
   ("xpath30/_xpath30_functions.py", "evaluate__format_number", "v > 10 ** num_digits", "argued: v divided by 10 per iteration"),
   ("xpath30/_xpath30_functions.py", "evaluate__format_number", "v < 10 ** num_digits", "argued: v multiplied by 10 per iteration, v > 0 checked before"),
